@@ -32,6 +32,9 @@ ASSUMPTIONS = [
 ]
 
 
+MIRROR_ROUNDS = 3  # overshoots of up to 6 bound widths are folded back by repeated reflection
+
+
 # ---------------------------------------------------------------------------- specification (from the statement)
 def spec_ok(T, v, lb, ub, t, out):
     """Per element: is `out` an admissible post-processing of the raw perturbed value `v`?"""
@@ -50,6 +53,18 @@ def spec_ok(T, v, lb, ub, t, out):
         # reflected at the violated bound, whenever that single reflection lies within the bounds
         conds.append(T.implies((v < lb) & (lo_ref <= ub), T.same(out, lo_ref)))
         conds.append(T.implies((v > ub) & (up_ref >= lb), T.same(out, up_ref)))
+        # larger overshoots ("of many bound widths") bounce between the bounds: reflected again and again, for overshoots of up to
+        # MIRROR_ROUNDS * 2 bound widths (beyond that the value is only required to end within the bounds)
+        try:
+            finite = bool(T.np.isfinite(lb)) and bool(T.np.isfinite(ub))
+        except Exception:  # noqa: BLE001
+            finite = False
+        if finite:
+            w = ub - lb
+            for side, d, base, sign in (("below", lb - v, lb, 1.0), ("above", v - ub, ub, -1.0)):
+                for k in range(1, 2 * MIRROR_ROUNDS + 1):
+                    offset = (d - (k - 1) * w) if k % 2 else (k * w - d)
+                    conds.append(T.implies((w > 0) & (d > (k - 1) * w) & (d <= k * w), T.same(out, base + sign * offset)))
     return T.all(conds)
 
 
@@ -114,18 +129,22 @@ def cases_perturb(tier):
         if N >= 2:
             # two samplers on disjoint variables, listed in the order 1, 0 (first appearance decides the order)
             yield "R%dP%dN%d/two-samplers" % (R, P, N), {"R": R, "P": P, "N": N, "types": [TRUNC] * N, "samplers": [1] + [0] * (N - 1)}
+    # three and four samplers in use, interleaved over more variables (every sampler's contribution is kept), pairwise different sizes
+    yield "R2P1N5/three-samplers", {"R": 2, "P": 1, "N": 5, "types": [TRUNC, NONE, MIRROR, TRUNC, NONE], "samplers": [0, 1, 2, 1, 0]}
+    yield "R3P2N6/four-samplers-one-unused-variable", {"R": 3, "P": 2, "N": 6, "types": [NONE] * 6, "samplers": [2, 0, -1, 3, 1, 2]}
+    for (R, P, N) in ((5, 4, 6), (4, 7, 3)):
+        yield "large/R%dP%dN%d/one-sampler" % (R, P, N), {"R": R, "P": P, "N": N, "types": [NONE, TRUNC, MIRROR][:N] + [TRUNC] * max(0, N - 3), "samplers": None, "__concrete_only__": True}
 
 
 def scn_perturb(T, case):
     R, P, N = case["R"], case["P"], case["N"]
     f = T.func("ropt.ensemble_evaluator._gradient", "_perturb_variables")
     x = T.real("x", (N,))
-    lb = T.real("lb", (N,), kinds=np.array(case["lbk"], dtype=object) if "lbk" in case else None)
-    ub = T.real("ub", (N,), kinds=np.array(case["ubk"], dtype=object) if "ubk" in case else None)
+    # pre-conditions lb <= x <= ub (satisfied by construction in the bounded runs)
+    lb = T.real("lb", (N,), kinds=np.array(case["lbk"], dtype=object) if "lbk" in case else None, le=x)
+    ub = T.real("ub", (N,), kinds=np.array(case["ubk"], dtype=object) if "ubk" in case else None, ge=x)
     mag = T.real("mag", (N,))
-    T.assume(T.all(lb <= ub))
-    T.assume(T.all((lb <= x) & (x <= ub)))
-    nsamp = 1 if case["samplers"] is None else 2
+    nsamp = 1 if case["samplers"] is None else max(case["samplers"]) + 1
     log = []
     samples = [T.real("s%d" % k, (R, P, N)) for k in range(nsamp)]
     samplers = [_FakeSampler(samples[k].copy(), log, k) for k in range(nsamp)]
@@ -187,6 +206,10 @@ def cases_fix(tier):
                     yield "N%d/%s/%s/%s" % (N, "".join(map(str, ptypes)), "transform" if tr else "plain", "scalar-mag" if bcast else "vector-mag"), {
                         "N": N, "ptypes": list(ptypes), "transform": tr, "bcast": bcast, "infinite": False}
     yield "N1/relative/infinite-bound", {"N": 1, "ptypes": [RELATIVE], "transform": False, "bcast": False, "infinite": True}
+    # more variables, relative and absolute ones interleaved (each relative variable gets ITS range times ITS fraction)
+    for ptypes in ([ABSOLUTE, RELATIVE, RELATIVE, RELATIVE], [RELATIVE, ABSOLUTE, RELATIVE, ABSOLUTE, RELATIVE]):
+        for tr in (False, True):
+            yield "N%d/%s/%s/vector-mag" % (len(ptypes), "".join(map(str, ptypes)), "transform" if tr else "plain"), {"N": len(ptypes), "ptypes": ptypes, "transform": tr, "bcast": False, "infinite": False}
     # the built-in VariableScaler as the variable transform (its magnitudes_to_optimizer must hand back a new array: the relative
     # entries of the array passed in are kept by fix_perturbations)
     for ptypes in ([ABSOLUTE, RELATIVE], [RELATIVE, ABSOLUTE], [RELATIVE, RELATIVE]):
@@ -205,8 +228,10 @@ def scn_fix(T, case):
     m = T.real("m", (1,) if case["bcast"] else (N,))
     lb = T.real("lb", (N,))
     inf = case["infinite"] if isinstance(case["infinite"], list) else [case["infinite"]] * N
-    ub = T.real("ub", (N,), kinds=np.array(["+inf" if f else "fin" for f in inf], dtype=object) if any(inf) else None)
-    T.assume(T.all(lb <= ub))
+    # upper = lower + a non-negative width (the pre-condition lb <= ub by construction, so that it also holds for every random draw
+    # of the bounded runs, whatever the number of variables)
+    width = T.real("bound_width", (N,), lo=0.0)
+    ub = T.np.array([np.inf if inf[i] else lb[i] + width[i] for i in range(N)])
     ptypes = np.array(case["ptypes"], dtype=np.ubyte)
     if case["bcast"] and len(set(case["ptypes"])) > 1:
         pass
@@ -257,11 +282,29 @@ def scn_steps(T, case):
     stepcontract.scenario(T, case, "C10")
 
 
+# ------------------------------------------------------------------------------------ the vectors the evaluator receives
+def cases_chain(tier):
+    from contracts import C11
+
+    for cid, c in C11.cases_chain_requests(tier):
+        yield cid, dict(c, prefix="C10.chain")
+
+
+def scn_chain(T, case):
+    """'Perturbed = current + magnitude x sample, within the bounds' for the vectors the EVALUATOR receives: with a variable transform
+    every row it is handed - unperturbed and perturbed, in function, gradient and combined requests - is the user-domain image of the
+    optimizer-domain row (C06's request scenario with a variable transform, under this property's prefix)."""
+    from contracts.C06 import scn_requests
+
+    scn_requests(T, case)
+
+
 SCENARIOS = [
     Scenario("apply_bounds", scn_apply_bounds, cases_apply_bounds, {"quick": 30, "thorough": 400}),
     Scenario("perturb_variables", scn_perturb, cases_perturb, {"quick": 10, "thorough": 100}),
     Scenario("fix_perturbations", scn_fix, cases_fix, {"quick": 10, "thorough": 100}),
     Scenario("plan_steps_hand_over", scn_steps, cases_steps, {"quick": 1, "thorough": 2}),
+    Scenario("evaluator_receives_the_perturbed_vectors", scn_chain, cases_chain, {"quick": 3, "thorough": 20}),
 ]
 
 MANIFEST = {
